@@ -56,6 +56,10 @@ func ruleDefineGuards(c *Ctx, r *R) {
 				if bi, isB := call.Call.Value.(*ssa.Builtin); isB && bi.Name() == "delete" && fn != del && len(call.Call.Args) == 2 {
 					if ld, ok := call.Call.Args[0].(*ssa.UnOp); ok && isFieldAddr(ld.X, "object", "property") {
 						key := "deleter-call:" + ssaFuncName(fn)
+						if (!deleteImpl[fn] || !dominatedByMethodTrue(fn, call, "configurable")) && c.partOf(fn, "objectDelete", 0) && c.eClean("SPEC-put-delete") {
+							r.ok(key, site, subsumedBy("SPEC-put-delete"))
+							continue
+						}
 						if !deleteImpl[fn] {
 							r.bad(key, site, fmt.Sprintf("%s removes a property from an object's table directly; only the function installed as [[Delete]] may (ES5 8.12.7)", ssaFuncName(fn)))
 							continue
@@ -70,6 +74,10 @@ func ruleDefineGuards(c *Ctx, r *R) {
 				switch callee {
 				case write:
 					key := "writer-call:" + ssaFuncName(fn)
+					if !defineImpl[fn] && c.partOf(fn, "objectDefineOwnProperty", 0) && c.eClean("SPEC-define-own") {
+						r.ok(key, site, subsumedBy("SPEC-define-own"))
+						continue
+					}
 					if !defineImpl[fn] {
 						r.bad(key, site, fmt.Sprintf("%s adds a property to an object's table directly; only the function installed as [[DefineOwnProperty]] may, because it is the one that checks extensibility and attribute compatibility (ES5 8.12.9)", ssaFuncName(fn)))
 						continue
@@ -78,9 +86,17 @@ func ruleDefineGuards(c *Ctx, r *R) {
 					// requirement: every call of writeProperty is either dominated by a successful `exists` test or by the extensible test
 					okExt := dominatedByFieldTest(fn, call, "object", "extensible", true)
 					okExists := dominatedByExistsTrue(fn, call)
+					if !(okExt || okExists) && c.partOf(fn, "objectDefineOwnProperty", 0) && c.eClean("SPEC-define-own") {
+						r.ok(key, site, subsumedBy("SPEC-define-own"))
+						continue
+					}
 					r.check(okExt || okExists, key, site, "dominated by the extensible test (new key) or by exists == true (update)", "writeProperty is reachable for a key that does not exist yet without passing the test of obj.extensible: a non-extensible (sealed, frozen) object can gain a property")
 				case del:
 					key := "deleter-call:" + ssaFuncName(fn)
+					if (!deleteImpl[fn] || !dominatedByMethodTrue(fn, call, "configurable")) && c.partOf(fn, "objectDelete", 0) && c.eClean("SPEC-put-delete") {
+						r.ok(key, site, subsumedBy("SPEC-put-delete"))
+						continue
+					}
 					if !deleteImpl[fn] {
 						r.bad(key, site, fmt.Sprintf("%s removes a property from an object's table directly; only the function installed as [[Delete]] may (ES5 8.12.7)", ssaFuncName(fn)))
 						continue
